@@ -69,6 +69,7 @@ THEOREMS = {
     "C07": dict(module="HH.Props.C07", trusted=MODEL_TRUST + SIMD_TRUST, theorems=[
         ("HH.C07.default_eq_new", "∀ back end, default = new zeroKey"),
         ("HH.C07.default_hash", "every default hasher is observationally the zero-key portable hasher"),
+        ("HH.C07.default_is_spec", "∀ back end, chunk list, width: default hasher fed the chunks = HighwayHash spec digest under the zero key; its checkpoint = encode(zero key, bytes)"),
         ("HH.C07.default_hash64_spec", "default portable hasher computes Spec.hash64 zeroKey"),
         ("HH.C07.legacy_default_ne", "kernel-checked witness of the fixed defect (derived Default: hash 0)"),
     ]),
